@@ -168,6 +168,86 @@ fn zero_kind(a: &CanonicalAssets, b: &CanonicalAssets) -> &'static str {
     }
 }
 
+
+/// Component-wise a - b with checked arithmetic (representable even when -b is not).
+fn sem_sub_direct(a: &Sem, b: &Sem) -> Option<Sem> {
+    let mut out = a.clone();
+    for (k, v) in b {
+        let e = out.entry(k.clone()).or_insert(0);
+        *e = e.checked_sub(*v)?;
+    }
+    out.retain(|_, v| *v != 0);
+    Some(out)
+}
+
+const EXTREMES: [i128; 14] = [
+    i128::MIN,
+    i128::MIN + 1,
+    i128::MIN + 2,
+    i128::MAX,
+    i128::MAX - 1,
+    i128::MAX - 2,
+    i128::MAX / 2,
+    i128::MAX / 2 + 1,
+    i128::MIN / 2,
+    i128::MIN / 2 - 1,
+    0,
+    1,
+    -1,
+    2,
+];
+
+fn extreme_amount(rng: &mut Rng) -> i128 {
+    match rng.below(4) {
+        0 => rng.range(-9, 9) as i128,
+        1 => {
+            let e = *rng.pick(&EXTREMES);
+            e.checked_add(rng.range(-7, 7) as i128).unwrap_or(e)
+        }
+        _ => *rng.pick(&EXTREMES),
+    }
+}
+
+/// The independent reading of one asset-expression entry: which class it denotes (None: the amount is
+/// not a constant).
+fn entry_class(e: &AssetExpr) -> AssetClass {
+    let policy: Option<Vec<u8>> = match &e.policy {
+        Expression::Bytes(x) | Expression::Hash(x) => Some(x.clone()),
+        _ => None,
+    };
+    let name: Option<Vec<u8>> = match &e.asset_name {
+        Expression::Bytes(x) => Some(x.clone()),
+        Expression::String(x) => Some(x.as_bytes().to_vec()),
+        _ => None,
+    };
+    let policy = policy.filter(|p| !p.is_empty());
+    let name = name.filter(|n| !n.is_empty());
+    match (policy, name) {
+        (Some(p), n) => AssetClass::Defined(p, n.unwrap_or_default()),
+        (None, Some(n)) => AssetClass::Named(n),
+        (None, None) => AssetClass::Naked,
+    }
+}
+
+fn list_sem(list: &[AssetExpr]) -> Option<Sem> {
+    let mut out = Sem::new();
+    for e in list {
+        let Expression::Number(n) = &e.amount else { return None };
+        let slot = out.entry(entry_class(e)).or_insert(0);
+        *slot = slot.checked_add(*n)?;
+    }
+    out.retain(|_, v| *v != 0);
+    Some(out)
+}
+
+fn show_list(list: &[AssetExpr]) -> Value {
+    json!(list.iter().map(|e| format!("{:?}/{:?}/{:?}", e.policy, e.asset_name, e.amount)).collect::<Vec<_>>())
+}
+
+fn show_sem(s: &Sem) -> Value {
+    json!(s.iter().map(|(k, v)| (k.to_string(), v.to_string())).collect::<Vec<_>>())
+}
+
 impl C15 {
     fn binary_checks(&self, ctx: &mut Ctx, a: &CanonicalAssets, b: &CanonicalAssets, tag: &str, reducer: bool) {
         let sa = sem(a);
@@ -275,6 +355,248 @@ impl C15 {
         }
     }
 
+
+    /// Operands whose amounts sit on and next to the ends of the i128 range, built without arithmetic
+    /// (deserialised maps), in correlated pairs so that exact results land on i128::MIN / i128::MAX;
+    /// every operation whose exact result is representable must produce it, in either profile.
+    fn extreme_case(&self, ctx: &mut Ctx, rng: &mut Rng) {
+        let pool = [
+            AssetClass::Naked,
+            AssetClass::Named(b"n".to_vec()),
+            AssetClass::Defined(vec![0xaa; 28], b"TOK1".to_vec()),
+            AssetClass::Defined(vec![0xbb; 28], vec![]),
+        ];
+        let mut ma: HashMap<AssetClass, i128> = HashMap::new();
+        let mut mb: HashMap<AssetClass, i128> = HashMap::new();
+        for class in pool.iter() {
+            match rng.below(8) {
+                0 => {}
+                1 => {
+                    ma.insert(class.clone(), extreme_amount(rng));
+                }
+                2 => {
+                    mb.insert(class.clone(), extreme_amount(rng));
+                }
+                3 | 4 => {
+                    // a - b lands on r
+                    let (r, b) = (extreme_amount(rng), extreme_amount(rng));
+                    if let Some(a) = r.checked_add(b) {
+                        ma.insert(class.clone(), a);
+                        mb.insert(class.clone(), b);
+                    }
+                }
+                5 => {
+                    // a + b lands on r
+                    let (r, b) = (extreme_amount(rng), extreme_amount(rng));
+                    if let Some(a) = r.checked_sub(b) {
+                        ma.insert(class.clone(), a);
+                        mb.insert(class.clone(), b);
+                    }
+                }
+                _ => {
+                    ma.insert(class.clone(), extreme_amount(rng));
+                    mb.insert(class.clone(), extreme_amount(rng));
+                }
+            }
+        }
+        let (a, b) = (deserialise(&ma), deserialise(&mb));
+        let (sa, sb) = (sem(&a), sem(&b));
+        let s_add = sem_add(&sa, &sb);
+        let s_sub = sem_sub_direct(&sa, &sb);
+        let s_negb = sem_neg(&sb);
+        let detail = |law: &str, got: Value| json!({"law": law, "a": show(&a), "b": show(&b), "got": got, "construction": "extremes"});
+        let at_edge = |s: &Option<Sem>| s.as_ref().is_some_and(|s| s.values().any(|v| *v == i128::MIN || *v == i128::MAX));
+        if at_edge(&s_add) {
+            ctx.count("feature/extreme-sum-on-edge");
+        }
+        if at_edge(&s_sub) {
+            ctx.count("feature/extreme-difference-on-edge");
+            if a.len() < b.len() {
+                ctx.count("feature/extreme-difference-on-edge-smaller-left");
+            }
+        }
+        ctx.eval();
+        ctx.nontrivial(fnv64(format!("{:?}{:?}", show(&a), show(&b)).as_bytes()));
+        // a plain operator may panic (checked profile) or wrap (release) only when the exact result does
+        // not fit; a checked operator says None exactly then
+        let run = |f: &dyn Fn() -> CanonicalAssets| crate::panics::catch(|| f());
+        if let Some(want) = &s_add {
+            for (name, r) in [("a+b", run(&|| a.clone() + b.clone())), ("b+a", run(&|| b.clone() + a.clone()))] {
+                match r {
+                    Ok(v) if sem(&v) == *want => {}
+                    Ok(v) => ctx.violation("extreme:add", detail(name, show(&v))),
+                    Err(p) => ctx.violation(format!("extreme:add:{}", p.signature()), detail(name, json!(p.message))),
+                }
+            }
+        }
+        match (crate::panics::catch(|| a.clone().checked_add(b.clone())), &s_add) {
+            (Ok(Some(v)), Some(want)) if sem(&v) == *want => {}
+            (Ok(None), None) => ctx.count("feature/extreme-checked-none"),
+            (Ok(got), _) => ctx.violation("extreme:checked_add", detail("checked_add vs reference", json!(got.map(|v| show(&v))))),
+            (Err(p), _) => ctx.violation(format!("extreme:checked_add:{}", p.signature()), detail("checked_add", json!(p.message))),
+        }
+        if let Some(want) = &s_sub {
+            match run(&|| a.clone() - b.clone()) {
+                Ok(v) if sem(&v) == *want => {
+                    // (a - b) + b == a always fits
+                    match run(&|| v.clone() + b.clone()) {
+                        Ok(back) if back == a && sem(&back) == sa => {}
+                        Ok(back) => ctx.violation("extreme:sub-then-add", detail("(a-b)+b == a", show(&back))),
+                        Err(p) => ctx.violation(format!("extreme:sub-then-add:{}", p.signature()), detail("(a-b)+b", json!(p.message))),
+                    }
+                    if s_negb.is_some() {
+                        match run(&|| a.clone() + (-b.clone())) {
+                            Ok(w) if w == v => {}
+                            Ok(w) => ctx.violation("extreme:sub-is-add-neg", detail("a-b == a+(-b)", json!([show(&v), show(&w)]))),
+                            Err(p) => ctx.violation(format!("extreme:add-neg:{}", p.signature()), detail("a+(-b)", json!(p.message))),
+                        }
+                    }
+                }
+                Ok(v) => ctx.violation("extreme:sub", detail("a-b vs reference", show(&v))),
+                Err(p) => ctx.violation(format!("extreme:sub:{}", p.signature()), detail("a-b", json!(p.message))),
+            }
+        }
+        match (crate::panics::catch(|| a.clone().checked_sub(b.clone())), &s_sub, &s_negb) {
+            (Ok(Some(v)), Some(want), _) if sem(&v) == *want => {}
+            (Ok(None), None, _) | (Ok(None), _, None) => ctx.count("feature/extreme-checked-none"),
+            (Ok(got), _, _) => ctx.violation("extreme:checked_sub", detail("checked_sub vs reference", json!(got.map(|v| show(&v))))),
+            (Err(p), _, _) => ctx.violation(format!("extreme:checked_sub:{}", p.signature()), detail("checked_sub", json!(p.message))),
+        }
+        match (crate::panics::catch(|| b.clone().checked_neg()), &s_negb) {
+            (Ok(Some(v)), Some(want)) if sem(&v) == *want => {}
+            (Ok(None), None) => ctx.count("feature/extreme-checked-none"),
+            (Ok(got), _) => ctx.violation("extreme:checked_neg", detail("checked_neg vs reference", json!(got.map(|v| show(&v))))),
+            (Err(p), _) => ctx.violation(format!("extreme:checked_neg:{}", p.signature()), detail("checked_neg", json!(p.message))),
+        }
+        if let Some(want) = &s_negb {
+            match run(&|| -b.clone()) {
+                Ok(v) if sem(&v) == *want => {}
+                Ok(v) => ctx.violation("extreme:neg", detail("-b vs reference", show(&v))),
+                Err(p) => ctx.violation(format!("extreme:neg:{}", p.signature()), detail("-b", json!(p.message))),
+            }
+        }
+        // the reducer: a representable result (for sub: with -b representable, which is how it computes)
+        // is produced; otherwise an error, never another value
+        let (ea, eb) = (to_expr(&a), to_expr(&b));
+        let sub_want = if s_negb.is_some() { s_sub.clone() } else { None };
+        for (name, op, want, must) in [
+            ("add", BuiltInOp::Add(ea.clone(), eb.clone()), &s_add, true),
+            ("sub", BuiltInOp::Sub(ea.clone(), eb.clone()), &sub_want, s_negb.is_some() || s_sub.is_none()),
+            ("neg", BuiltInOp::Negate(eb.clone()), &s_negb, true),
+        ] {
+            let r = crate::panics::catch(|| Expression::EvalBuiltIn(Box::new(op)).reduce());
+            ctx.count("feature/reducer-op");
+            match (r, want) {
+                (Ok(Ok(e)), Some(w)) if expr_sem(&e).as_ref() == Some(w) => {}
+                (Ok(Err(_)), None) => {}
+                (Ok(Err(_)), Some(_)) if !must => {}
+                (Ok(Ok(e)), None) if !must && s_sub.is_some() && expr_sem(&e) == s_sub => {}
+                (Ok(Ok(e)), _) => ctx.violation(format!("extreme:reducer:{name}"), detail("reduce(op) vs reference", json!(format!("{:?}", expr_sem(&e))))),
+                (Ok(Err(e)), _) => ctx.violation(format!("extreme:reducer-error:{name}"), detail("reduce(op) errored on a representable result", json!(e.to_string()))),
+                (Err(p), _) => ctx.violation(format!("extreme:reducer-{}:{name}", p.signature()), detail("reduce(op) panicked", json!(p.message))),
+            }
+        }
+    }
+
+    /// Asset-expression lists as the lowering and the argument application produce them - one class in
+    /// several spellings (absent / empty bytes / empty hash / empty string parts, Bytes vs Hash vs String),
+    /// repeated classes, zero amounts - converted as a whole, entry by entry, and through the reducer.
+    fn list_case(&self, ctx: &mut Ctx, rng: &mut Rng) {
+        let policies: Vec<Vec<u8>> = vec![vec![0xaa; 28], vec![0xbb; 28], vec![0xaa]];
+        let names: Vec<Vec<u8>> = vec![b"TOK".to_vec(), b"t".to_vec(), vec![0xaa; 28]];
+        let mut entry = |rng: &mut Rng| -> AssetExpr {
+            let policy = match rng.below(7) {
+                0 => Expression::None,
+                1 => Expression::Bytes(vec![]),
+                2 => Expression::Hash(vec![]),
+                3 | 4 => Expression::Bytes(rng.pick(&policies).clone()),
+                _ => Expression::Hash(rng.pick(&policies).clone()),
+            };
+            let asset_name = match rng.below(7) {
+                0 => Expression::None,
+                1 => Expression::Bytes(vec![]),
+                2 => Expression::String(String::new()),
+                3 | 4 => Expression::Bytes(rng.pick(&names).clone()),
+                _ => {
+                    let n = rng.pick(&names).clone();
+                    match String::from_utf8(n.clone()) {
+                        Ok(s) => Expression::String(s),
+                        Err(_) => Expression::Bytes(n),
+                    }
+                }
+            };
+            let amount = if rng.chance(1, 5) { rng.boundary_int() >> 4 } else { rng.range(-3, 9) as i128 };
+            AssetExpr { policy, asset_name, amount: Expression::Number(amount) }
+        };
+        let la: Vec<AssetExpr> = (0..rng.usize(5)).map(|_| entry(rng)).collect();
+        let lb: Vec<AssetExpr> = (0..rng.usize(4)).map(|_| entry(rng)).collect();
+        let (Some(sa), Some(sb)) = (list_sem(&la), list_sem(&lb)) else {
+            ctx.count("skipped/overflow");
+            return;
+        };
+        let empty_spelling = |l: &[AssetExpr]| {
+            l.iter().any(|e| {
+                matches!(&e.policy, Expression::Bytes(x) | Expression::Hash(x) if x.is_empty())
+                    || matches!(&e.asset_name, Expression::Bytes(x) if x.is_empty())
+                    || matches!(&e.asset_name, Expression::String(x) if x.is_empty())
+            })
+        };
+        if empty_spelling(&la) || empty_spelling(&lb) {
+            ctx.count("feature/list-empty-part-spelling");
+        }
+        if la.len() > sa.len() {
+            ctx.count("feature/list-class-repeated");
+        }
+        ctx.eval();
+        ctx.nontrivial(fnv64(format!("{:?}{:?}", show_list(&la), show_list(&lb)).as_bytes()));
+        let detail = |law: &str, got: Value| json!({"law": law, "a": show_list(&la), "b": show_list(&lb), "got": got, "construction": "lists"});
+        let whole = match crate::panics::catch(|| CanonicalAssets::from(la.clone())) {
+            Ok(v) => v,
+            Err(p) => {
+                ctx.violation(format!("list:{}", p.signature()), detail("From<Vec<AssetExpr>>", json!(p.message)));
+                return;
+            }
+        };
+        let mut by_entry = CanonicalAssets::empty();
+        for e in &la {
+            by_entry = by_entry + CanonicalAssets::from(e.clone());
+        }
+        if whole != by_entry {
+            ctx.violation("list:whole-vs-entries", detail("from(list) == sum of from(entry)", json!([show(&whole), show(&by_entry)])));
+        }
+        if sem(&whole) != sa {
+            ctx.violation("list:whole-vs-reference", detail("from(list) vs reference", json!([show(&whole), show_sem(&sa)])));
+        }
+        // the value survives value -> list -> value
+        let rt = CanonicalAssets::from(Vec::<AssetExpr>::from(whole.clone()));
+        if rt != whole {
+            ctx.violation("list:roundtrip", detail("from(list) -> list -> value", json!([show(&whole), show(&rt)])));
+        }
+        // the reducer over the lists as written
+        let (Some(s_add), Some(s_sub), Some(s_neg)) = (sem_add(&sa, &sb), sem_sub(&sa, &sb), sem_neg(&sb)) else {
+            ctx.count("skipped/overflow");
+            return;
+        };
+        for (name, op, want) in [
+            ("add", BuiltInOp::Add(Expression::Assets(la.clone()), Expression::Assets(lb.clone())), &s_add),
+            ("sub", BuiltInOp::Sub(Expression::Assets(la.clone()), Expression::Assets(lb.clone())), &s_sub),
+            ("neg", BuiltInOp::Negate(Expression::Assets(lb.clone())), &s_neg),
+            ("sub-self", BuiltInOp::Sub(Expression::Assets(la.clone()), Expression::Assets(la.clone())), &Sem::new()),
+        ] {
+            let r = crate::panics::catch(|| Expression::EvalBuiltIn(Box::new(op)).reduce());
+            ctx.count("feature/reducer-op");
+            match r {
+                Ok(Ok(e)) => match &e {
+                    Expression::Assets(out) if list_sem(out).as_ref() == Some(want) => {}
+                    Expression::None if want.is_empty() => {}
+                    other => ctx.violation(format!("list:reducer:{name}"), detail("reduce(op) over lists vs reference", json!(format!("{other:?}")))),
+                },
+                Ok(Err(e)) => ctx.violation(format!("list:reducer-error:{name}"), detail("reduce(op) errored", json!(e.to_string()))),
+                Err(p) => ctx.violation(format!("list:reducer-{}:{name}", p.signature()), detail("reduce(op) panicked", json!(p.message))),
+            }
+        }
+    }
+
     fn random_value(&self, rng: &mut Rng, pool: &[AssetClass], small: bool) -> CanonicalAssets {
         let n = rng.usize(4);
         let mut acc = CanonicalAssets::empty();
@@ -311,7 +633,7 @@ impl Property for C15 {
     }
 
     fn rule(&self) -> String {
-        "pairs/triples: every pair (triple) of representations of values over 3 asset classes (lovelace, two tokens) with amounts in the phase's range, where a representation = amounts x construction path (sum of singles, single constructor incl. amount 0, negation of a single, deserialised map with explicit zero entries); random: 0..3 summands over a pool of classes with policies/names of length 0..40 (Naked, Named, Defined), amounts across the i128 range kept below 2^125 so that no sum overflows. A case is non-trivial when both operands are semantically non-empty or one carries an explicit zero entry; distinct = distinct (a, b[, c]) entry lists incl. zero entries.".into()
+        "pairs/triples: every pair (triple) of representations of values over 3 asset classes (lovelace, two tokens) with amounts in the phase's range, where a representation = amounts x construction path (sum of singles, single constructor incl. amount 0, negation of a single, deserialised map with explicit zero entries); random: 0..3 summands over a pool of classes with policies/names of length 0..40 (Naked, Named, Defined), amounts across the i128 range kept below 2^125 so that no sum overflows; extremes: operands built without arithmetic (deserialised maps) over 4 classes with amounts on and next to i128::MIN / i128::MAX / half-range, in correlated pairs so that exact sums and differences land on the range ends, left operand smaller or larger than the right, in the release and the overflow-checking profile - every plain, checked and reducer operation whose exact result is representable must produce it and a checked one says None exactly otherwise; lists: asset-expression lists of 0..4 entries with one class in several spellings (absent / empty Bytes / empty Hash / empty String parts, Bytes vs Hash vs String), repeated classes and zero amounts, converted as a whole, entry by entry, against an independent reading, and through the reducer's Add/Sub/Negate. A case is non-trivial when both operands are semantically non-empty or one carries an explicit zero entry; distinct = distinct (a, b[, c]) entry lists incl. zero entries.".into()
     }
 
     fn assumptions(&self) -> Vec<String> {
@@ -329,12 +651,19 @@ impl Property for C15 {
                 Phase::new("pairs", full * full, Profile::Release).exhaustive(),
                 Phase::new("triples-small", small * small, Profile::Release).exhaustive(),
                 Phase::new("random", 60_000, Profile::Release),
+                Phase::new("extremes", 40_000, Profile::Release),
+                Phase::new("extremes-checked", 40_000, Profile::Checked),
+                Phase::new("lists", 40_000, Profile::Release),
             ],
             Tier::Thorough => vec![
                 Phase::new("pairs", full * full, Profile::Release).exhaustive(),
                 Phase::new("triples", full * full, Profile::Release).exhaustive(),
                 Phase::new("random", 3_000_000, Profile::Release),
                 Phase::new("random-checked", 300_000, Profile::Checked),
+                Phase::new("extremes", 1_000_000, Profile::Release),
+                Phase::new("extremes-checked", 1_000_000, Profile::Checked),
+                Phase::new("lists", 1_000_000, Profile::Release),
+                Phase::new("lists-checked", 200_000, Profile::Checked),
             ],
         }
     }
@@ -347,6 +676,12 @@ impl Property for C15 {
             "feature/assoc-triple".into(),
             "feature/random-named-class".into(),
             "feature/random-empty-policy".into(),
+            "feature/extreme-sum-on-edge".into(),
+            "feature/extreme-difference-on-edge".into(),
+            "feature/extreme-difference-on-edge-smaller-left".into(),
+            "feature/extreme-checked-none".into(),
+            "feature/list-empty-part-spelling".into(),
+            "feature/list-class-repeated".into(),
         ]
     }
 
@@ -367,6 +702,8 @@ impl Property for C15 {
                     ctx.sample(|| json!({"phase": "pairs", "a": show(&a), "b": show(&b), "construction": tag}));
                 }
             }
+            "extremes" | "extremes-checked" => self.extreme_case(ctx, rng),
+            "lists" | "lists-checked" => self.list_case(ctx, rng),
             "triples" | "triples-small" => {
                 let r = if phase == "triples" { reps(-2, 2) } else { reps(-1, 1) };
                 let n = r.len() as u64;
